@@ -180,8 +180,26 @@ def strategy_(d, tier):
             ops.append([d.choice(["del", "dup", "swap", "splice", "trunc", "flip", "join"]), d.int(0, 100000), d.int(0, 100000)])
         return dict(kind="mut", test=name, ops=ops)
     tool = d.choice(["plist", "pbind", "p2bin", "p2hex", "alink", "dasl"])
+    if tool == "dasl" and d.bool(0.4):
+        # many separate code chunks: records of a hex file with gaps between them and/or several -binfile options;
+        # counts around the powers of two where tables grow
+        n = d.weighted([(3, d.int(1, 12)), (3, d.choice([15, 16, 17, 18, 31, 32, 33, 34, 63, 64, 65])), (2, d.int(13, 70))])
+        step = d.choice([8, 16, 32, 100, 256])
+        chunks = []
+        a = d.choice([0, 0x100, 0x1000, 0xf000])
+        for i in range(n):
+            ln = d.int(1, min(6, step - 1))
+            chunks.append([a, d.bytes(ln).hex() if d.bool(0.3) else ("01" * (ln - 1) + "39")])
+            a += step if d.bool(0.9) else ln          # now and then two chunks touch
+        if d.bool(0.2):
+            d_ = chunks[:]
+            chunks = [d_[(i * 7) % len(d_)] for i in range(len(d_))] if len(d_) % 7 else d_[::-1]
+        ne = d.weighted([(2, 0), (3, 1), (3, len(chunks)), (1, d.int(0, len(chunks)))])
+        return dict(kind="tool", tool="dasl", cpu=d.choice(["6800", "6802", "4004", "87C00"]),
+                    mode="multi", chunks=chunks, fmt=d.weighted([(4, "hex"), (2, "bin"), (1, "both")]),
+                    entries=[c[0] for c in chunks[:ne]], junkopt=None, data="", base=0, entry=None)
     if tool == "dasl":
-        return dict(kind="tool", tool=tool, cpu=d.choice(["6800", "6802", "4004", "4040", "87c00", "87c20", "xyz"]),
+        return dict(kind="tool", tool=tool, cpu=d.choice(["6800", "6802", "4004", "87C00", "6800", "4004", "87C00", "xyz", "87c00"]),
                     data=d.bytes(d.int(0, 64)).hex(), mode=d.choice(["bin", "hex", "hextext"]),
                     base=d.choice([0, 0x100, 0xfff0, 0xffffffff]), entry=d.choice([None, 0, 0x100, 0xffff, 0x12345678]),
                     junkopt=d.choice([None, "-cpu", "-binfile", "-entryaddress x", "-hexfile nofile", "-h"]))
@@ -399,6 +417,24 @@ def build_run(case, d, flavour):
     if tool == "dasl":
         data = bytes.fromhex(case["data"])
         argv = ["dasl", "-cpu", case["cpu"]]
+        if case["mode"] == "multi":
+            hexlines = []
+            for i, (a, hx) in enumerate(case["chunks"]):
+                b = bytes.fromhex(hx)
+                as_hex = case["fmt"] == "hex" or (case["fmt"] == "both" and i % 2 == 0)
+                if as_hex and a + len(b) <= 0x10000:
+                    rec = bytes([len(b), (a >> 8) & 0xff, a & 0xff, 0]) + b
+                    hexlines.append(":" + rec.hex().upper() + "%02X" % ((-sum(rec)) & 0xff))
+                else:
+                    run.write_files(d, {"c%d.bin" % i: b})
+                    argv += ["-binfile", "c%d.bin@%d" % (i, a)]
+            if hexlines:
+                run.write_files(d, {"img.hex": "\n".join(hexlines) + "\n:00000001FF\n"})
+                argv += ["-hexfile", "img.hex"]
+            for e in case["entries"]:
+                argv += ["-entryaddress", "%d" % e]
+            r = run.run(argv, d, flavour=flavour, timeout=60, cpu=12, fsize=1 << 26)
+            return tool, r, "", None
         if case["mode"] == "bin":
             run.write_files(d, {"img.bin": data})
             argv += ["-binfile", "img.bin@%d" % case["base"]]
